@@ -6,13 +6,14 @@
    offsets, no padding, no file.  The first two theorems are the refinement:
    every operation of the library, on any state satisfying the invariant, and
    every history, does on the abstract view exactly what the reference model
-   does, results included.  The remaining theorems spell out consequences for
+   does, results included; the third gives the abstract image a creation
+   starts from.  The remaining theorems spell out consequences for
    every state reachable by any history from any creation or any well-formed
    foreign image. *)
-From Coq Require Import List ZArith Bool.
+From Coq Require Import List ZArith Bool Lia.
 From Coq.Init Require Import Byte.
 From Sif Require Import Bytes Store Format Image Machine Inv InvSet InvDelete InvAdd InvCreate Reach
-     Persist PrimInv Determ C02Facts Abstract Refine.
+     Persist PrimInv Determ C02Facts Abstract Refine CreateRefine.
 Import ListNotations.
 Local Open Scope Z_scope.
 
@@ -32,6 +33,25 @@ Theorem C02_every_history_follows_the_reference_model :
   Inv s -> wf_ops sha256 s ops ->
   a_run sha256 (abs s) ops = (abs (fst (run sha256 s ops)), snd (run sha256 s ops)).
 Proof. exact run_refines. Qed.
+
+(* creation: the abstract image is determined by the options alone - the
+   header summary (launch script, ID, times as given; the architecture of the
+   primary system partition among the objects given, if any), one slot per
+   object given, in order, with ID = position + 1 and attributes and content
+   as given, and every remaining slot free *)
+Theorem C02_creation_starts_from_the_reference_image :
+  forall sha256, (forall c, length (sha256 c) = 32%nat) ->
+  forall b co s r io,
+  wf_copts co ->
+  create sha256 b co = (Some s, r, io) ->
+  as_hdr (abs s) = mkAH (pad_to 32 (co_launch co)) (co_id co) (a_create_arch (co_dis co))
+                        (co_time co) (co_time co) /\
+  length (as_slots (abs s)) = Z.to_nat (co_cap co) /\
+  (forall k di, nth_error (co_dis co) k = Some di ->
+     nth_error (as_slots (abs s)) k = a_create_slot sha256 (co_time co) k di) /\
+  (forall k, (length (co_dis co) <= k < Z.to_nat (co_cap co))%nat ->
+     nth_error (as_slots (abs s)) k = Some (zero_desc, [])).
+Proof. exact create_refines. Qed.
 
 (* IDs are unique among live objects (and non-zero); free plus used
    descriptors equals capacity; capacity never changes. *)
@@ -172,8 +192,36 @@ Theorem C02_foreign_id_numbering_refuted :
   r = Ok /\ map d_id (filter d_used (m_rds (s_mem s'))) = [1; 1].
 Proof. vm_compute. repeat split. Qed.
 
+(* non-vacuity: a creation with a primary partition and a second object meets
+   the premises, and its abstract image is the one stated *)
+Definition co_ex : copts :=
+  mkCO [x23; x21] (zeros 16) 3 1700000000
+       [mkDI DataPartition [x61; x62] None 1 LNone 4096 [x72] (MdPart 1 2 [x30; x32; x00]) None;
+        mkDI DataGeneric [x63] None 0 LNone 0 [] MdNone None].
+Example C02_creation_example :
+  wf_copts co_ex /\
+  match create sha0 BFile co_ex with
+  | (Some s, Ok, _) =>
+      ah_arch (as_hdr (abs s)) = [x30; x32; x00] /\ length (as_slots (abs s)) = 3%nat /\
+      nth_error (as_slots (abs s)) 1 = a_create_slot sha0 1700000000 1 (mkDI DataGeneric [x63] None 0 LNone 0 [] MdNone None)
+  | _ => False
+  end.
+Proof.
+  split.
+  - constructor.
+    + cbn. lia.
+    + reflexivity.
+    + cbn. unfold max_u32. lia.
+    + cbn. unfold in_i64. lia.
+    + cbn [co_dis co_ex]. repeat constructor; cbn; unfold in_i32, in_u32, in_i64; try lia; auto.
+      all: unfold DataPartition, DataGeneric; lia.
+    + vm_compute. discriminate.
+  - vm_compute. repeat split.
+Qed.
+
 Print Assumptions C02_every_operation_follows_the_reference_model.
 Print Assumptions C02_every_history_follows_the_reference_model.
+Print Assumptions C02_creation_starts_from_the_reference_image.
 Print Assumptions C02_invariants.
 Print Assumptions C02_objects_persist.
 Print Assumptions C02_primary_at_creation.
